@@ -13,8 +13,8 @@ import (
 	"verif/harness/vlib"
 )
 
-// wantInt fails unless got holds the signed value want. The sign verdict of a zero result is
-// the input class of finding C17-negative-zero and is excluded (counted), everything else asserted.
+// wantInt fails unless got holds the signed value want, with a consistent sign verdict (a zero
+// result must not report negative: finding C17-negative-zero, fixed by dbd7902).
 func wantInt(t *rapid.T, what string, got *numct.Int, want *big.Int, wantAnn int) {
 	t.Helper()
 	if g := got.Big(); !eq(g, want) {
@@ -26,13 +26,12 @@ func wantInt(t *rapid.T, what string, got *numct.Int, want *big.Int, wantAnn int
 	if got.TrueLen() != want.BitLen() {
 		t.Fatalf("%s: TrueLen %d, want %d", what, got.TrueLen(), want.BitLen())
 	}
-	neg := ctb(got.IsNegative())
-	if want.Sign() == 0 && neg {
-		vlib.Excluded(fNegZero)
-		return
-	}
-	if neg != (want.Sign() < 0) {
+	if neg := ctb(got.IsNegative()); neg != (want.Sign() < 0) {
 		t.Fatalf("%s: IsNegative()=%v for value %s", what, neg, want.String())
+	}
+	lt, e, gt := got.Compare(numct.IntZero())
+	if ctb(lt) != (want.Sign() < 0) || ctb(e) != (want.Sign() == 0) || ctb(gt) != (want.Sign() > 0) {
+		t.Fatalf("%s: Compare(result, 0) = (%d,%d,%d) for value %s", what, lt, e, gt, want.String())
 	}
 }
 
@@ -43,25 +42,36 @@ func intUnchanged(t *rapid.T, what string, n *numct.Int, op intOp) {
 	}
 }
 
-func aliasInt2(t *rapid.T, mode string, l intOp, r *intOp) (out, x, y *numct.Int) {
-	junk := genIntOp(t, "junk", 200, false)
+// aliasInt2 builds (out, x, y) under the drawn aliasing mode; zOld describes the output before the
+// call (a fresh zero value, a junk value of up to 400 bits, or the aliased operand).
+func aliasInt2(t *rapid.T, mode string, l intOp, r *intOp) (out, x, y *numct.Int, zOld intOp) {
+	junk := genIntOp(t, "junk", 400, false)
+	fresh := rapid.IntRange(0, 2).Draw(t, "freshout") == 0
+	mk := func() *numct.Int {
+		if fresh {
+			zOld = intOp{orig: new(big.Int), v: new(big.Int), ann: 0}
+			return new(numct.Int)
+		}
+		zOld = junk
+		return junk.int()
+	}
 	switch mode {
 	case "none":
-		return junk.int(), l.int(), r.int()
+		return mk(), l.int(), r.int(), zOld
 	case "out=x":
 		x = l.int()
-		return x, x, r.int()
+		return x, x, r.int(), l
 	case "out=y":
 		y = r.int()
-		return y, l.int(), y
+		return y, l.int(), y, *r
 	case "x=y":
 		*r = l
 		x = l.int()
-		return junk.int(), x, x
+		return mk(), x, x, zOld
 	default:
 		*r = l
 		x = l.int()
-		return x, x, x
+		return x, x, x, l
 	}
 }
 
@@ -105,14 +115,14 @@ func TestNumctInt(t *testing.T) {
 			}
 			l := genIntOp(t, "x", maxB, true)
 			r := genIntOp(t, "y", maxB, true)
-			if rapid.IntRange(0, 9).Draw(t, "opposite") == 0 { // x + (-x), x - x
+			if rapid.IntRange(0, 9).Draw(t, "opposite") == 0 && l.v.Sign() != 0 { // x + (-x), x - x
 				r = l
 				r.v = new(big.Int).Neg(l.v)
 				r.orig = new(big.Int).Neg(l.orig)
 				extra = "y=-x"
 			}
 			mode := rapid.SampledFrom(aliasModes).Draw(t, "alias")
-			out, x, y := aliasInt2(t, mode, l, &r)
+			out, x, y, zOld := aliasInt2(t, mode, l, &r)
 			var exact *big.Int
 			var defCap int
 			switch op {
@@ -161,8 +171,16 @@ func TestNumctInt(t *testing.T) {
 			case "XorCap":
 				out.XorCap(x, y, capArg)
 			}
-			what := fmt.Sprintf("numct.Int.%s(x=%s, y=%s, cap=%d) alias=%s", op, l, r, capArg, mode)
-			if capArg >= 0 && capArg < need {
+			what := fmt.Sprintf("numct.Int.%s(x=%s, y=%s, cap=%d) alias=%s out-before=%s", op, l, r, capArg, mode, zOld)
+			effCap := capArg
+			if effCap < 0 {
+				effCap = defCap
+			}
+			if (op == "Add" || op == "AddCap" || op == "Sub" || op == "SubCap") && intAddDirty(zOld.v, zOld.ann, l.ann, r.ann, effCap) {
+				vlib.Excluded(fIntAddDirty)
+				extra += " dirty-output(excluded)"
+				nt = false
+			} else if capArg >= 0 && capArg < need {
 				// an explicit capacity below the operands / the result: the doc comments define no
 				// value for signed integers in that case; recorded, not asserted.
 				extra += " cap-below-need(recorded)"
@@ -177,11 +195,24 @@ func TestNumctInt(t *testing.T) {
 				}
 				wantInt(t, what, out, exact, wantAnn)
 			}
+			// MulCap with an explicit capacity below an operand's announced length truncates that
+			// operand's magnitude in place: finding C17-cap-mutates-input (same saferith routine).
+			mut := func(o intOp) bool {
+				return op == "MulCap" && capArg >= 0 && capTruncatesOperand(natOp{v: new(big.Int).Abs(o.v), ann: o.ann}, capArg)
+			}
 			if out != x {
-				intUnchanged(t, what+" [x]", x, l)
+				if mut(l) {
+					vlib.Excluded(fCapMutates)
+				} else {
+					intUnchanged(t, what+" [x]", x, l)
+				}
 			}
 			if out != y && y != x {
-				intUnchanged(t, what+" [y]", y, r)
+				if mut(r) {
+					vlib.Excluded(fCapMutates)
+				} else {
+					intUnchanged(t, what+" [y]", y, r)
+				}
 			}
 			sizeC, capC, aliasC = sizeClass(max(l.v.BitLen(), r.v.BitLen())), l.capC+","+r.capC+","+capArgC, mode
 			signC = signClass(l.v) + "," + signClass(r.v)
@@ -209,11 +240,13 @@ func TestNumctInt(t *testing.T) {
 			}
 			aliased := rapid.IntRange(0, 3).Draw(t, "alias1") == 0
 			x := l.int()
-			out := genIntOp(t, "junk", 200, false).int()
-			before := new(big.Int).Set(out.Big())
+			junk := genIntOp(t, "junk", 400, false)
+			out := junk.int()
+			before := new(big.Int).Set(junk.v)
 			if aliased {
 				out = x
 				before = new(big.Int).Set(l.v)
+				junk = l
 			}
 			aliasC = map[bool]string{true: "out=x", false: "none"}[aliased]
 			what := fmt.Sprintf("numct.Int.%s(x=%s) alias=%s", op, l, aliasC)
@@ -227,7 +260,13 @@ func TestNumctInt(t *testing.T) {
 				wantInt(t, what, out, new(big.Int).Abs(l.v), l.ann)
 			case "Double":
 				out.Double(x)
-				wantInt(t, what, out, new(big.Int).Lsh(l.v, 1), l.ann+1)
+				if intAddDirty(junk.v, junk.ann, l.ann, l.ann, l.ann+1) {
+					vlib.Excluded(fIntAddDirty)
+					extra = "dirty-output(excluded)"
+					nt = false
+				} else {
+					wantInt(t, what, out, new(big.Int).Lsh(l.v, 1), l.ann+1)
+				}
 			case "Square":
 				out.Square(x)
 				wantInt(t, what, out, new(big.Int).Mul(l.v, l.v), 2*l.ann)
@@ -345,8 +384,8 @@ func TestNumctInt(t *testing.T) {
 					default:
 						t.Fatalf("%s: %s is neither trunc %s nor floor %s", what, g, trunc, floor)
 					}
-					if g.Sign() == 0 && ctb(out.IsNegative()) {
-						vlib.Excluded(fNegZero)
+					if ctb(out.IsNegative()) != (g.Sign() < 0) {
+						t.Fatalf("%s: IsNegative()=%v for value %s", what, ctb(out.IsNegative()), g)
 					}
 				}
 			case "Sqrt":
@@ -404,7 +443,7 @@ func TestNumctInt(t *testing.T) {
 			if !inplace && out != x {
 				intUnchanged(t, what+" [x]", x, l)
 			}
-			sizeC, aliasC, signC = sizeClass(l.v.BitLen()), aliasC, signClass(l.v)
+			sizeC, signC = sizeClass(l.v.BitLen()), signClass(l.v)
 			if inplace {
 				aliasC = "inplace"
 			}
@@ -438,6 +477,11 @@ func TestNumctInt(t *testing.T) {
 				extra = "exact"
 			default:
 				d = genIntOp(t, "den", mid, true)
+			}
+			if (op == "EuclideanDivVarTime" || op == "DivVarTime") && divVarTimePanics(n.ann, d.v) {
+				vlib.Excluded(fDivVarPanic)
+				vlib.Case(test, vlib.Desc("numct.Int", op, "excluded"), false, "op="+op, "note=excluded:"+fDivVarPanic)
+				return
 			}
 			nn, dd := n.int(), d.int()
 			fresh := rapid.Bool().Draw(t, "freshout")
@@ -482,8 +526,8 @@ func TestNumctInt(t *testing.T) {
 				}
 				if r != nil {
 					rBig, rAnn = r.Big(), r.AnnouncedLen()
-					if rBig.Sign() == 0 && ctb(r.IsNegative()) {
-						vlib.Excluded(fNegZero)
+					if ctb(r.IsNegative()) != (rBig.Sign() < 0) {
+						t.Fatalf("numct.Int.%s(num=%s, den=%s): remainder %s reports IsNegative=%v", op, n, d, rBig, ctb(r.IsNegative()))
 					}
 				}
 			}
@@ -533,8 +577,8 @@ func TestNumctInt(t *testing.T) {
 					if qAnn >= 0 && q.AnnouncedLen() != qAnn {
 						t.Fatalf("%s: quotient announces %d bits, documented %d", what, q.AnnouncedLen(), qAnn)
 					}
-					if g.Sign() == 0 && ctb(q.IsNegative()) {
-						vlib.Excluded(fNegZero)
+					if ctb(q.IsNegative()) != (g.Sign() < 0) {
+						t.Fatalf("%s: quotient %s reports IsNegative=%v", what, g, ctb(q.IsNegative()))
 					}
 				}
 			} else {
@@ -575,7 +619,7 @@ func TestNumctInt(t *testing.T) {
 			if op == "Compare" || op == "Predicates" || op == "Coprime" {
 				mode = rapid.SampledFrom([]string{"none", "none", "none", "x=y"}).Draw(t, "alias")
 			}
-			out, x, y := aliasInt2(t, mode, l, &r)
+			out, x, y, _ := aliasInt2(t, mode, l, &r)
 			what := fmt.Sprintf("numct.Int.%s(x=%s, y=%s) alias=%s", op, l, r, mode)
 			switch op {
 			case "Compare":
